@@ -213,6 +213,8 @@ where
                 human_size!(archive.total_source_size())
             ));
         }
+        // Scanning the output for chunks has to start from the beginning.
+        output_file.seek(SeekFrom::Start(0)).await?;
     }
 
     // Build an index of the output file's chunks
